@@ -82,6 +82,14 @@ impl Same for Words { fn same(&self, o: &Self) -> bool { self == o } }
 fn all_words() -> Vec<Word> { vec![Word::OkV, Word::ErrorV, Word::TrueV, Word::FalseV, Word::NilV, Word::UndefinedV, Word::NormalV, Word::ShutdownV, Word::InfinityV, Word::BadargV, Word::BadarithV, Word::BadmatchV, Word::NoprocV, Word::TimeoutV, Word::NoconnectionV, Word::KilledV, Word::KillV, Word::UndefV, Word::BadkeyV, Word::BadmapV, Word::BadfunV, Word::BadarityV, Word::FunctionClauseV, Word::CaseClauseV, Word::IfClauseV, Word::TryClauseV, Word::NocatchV, Word::SystemLimitV, Word::NotFoundV, Word::ClosedV, Word::EofV, Word::ExitV, Word::ThrowV, Word::StopV, Word::IgnoreV, Word::ReplyV, Word::NoreplyV, Word::YesV, Word::NoV, Word::NoneV] }
 fn words_struct() -> Words { Words { f_ok: 0, f_error: 1, f_true: 2, f_false: 3, f_nil: 4, f_undefined: 5, f_normal: 6, f_shutdown: 7, f_infinity: 8, f_badarg: 9, f_badarith: 10, f_badmatch: 11, f_noproc: 12, f_timeout: 13, f_noconnection: 14, f_killed: 15, f_kill: 16, f_undef: 17, f_badkey: 18, f_badmap: 19 } }
 
+/// non-ASCII variant and field names (atoms of more bytes than characters)
+#[derive(Debug, Clone, PartialEq, Serialize, Deserialize)]
+enum Größe { #[serde(rename = "größe")] Klein, #[serde(rename = "überlänge_ääääääääääääääääääääääääääääääääääääääääääääääääääääääääääääääääääääääääääääääääääääääääääääääääääääääääääääääääääääääääääääääääääääääääääää")] Lang(i32), #[serde(rename = "日本語")] Tup(i8, String) }
+impl Same for Größe { fn same(&self, o: &Self) -> bool { self == o } }
+#[derive(Debug, Clone, PartialEq, Serialize, Deserialize)]
+struct Straße { #[serde(rename = "straße")] s: String, #[serde(rename = "€uro")] e: i64, #[serde(rename = "😀")] smile: Vec<Größe> }
+impl Same for Straße { fn same(&self, o: &Self) -> bool { self == o } }
+
 /// field names that are Rust keywords (written as raw identifiers), derived and plain
 #[derive(Debug, Clone, PartialEq, ElixirStruct)]
 #[elixir_module = "MyApp.Event"]
@@ -105,6 +113,33 @@ impl Same for Wrapper { fn same(&self, o: &Self) -> bool { self == o } }
 #[derive(Serialize, Deserialize, Debug, Clone, PartialEq)]
 struct Pair(i32, String);
 impl Same for Pair { fn same(&self, o: &Self) -> bool { self == o } }
+
+/// For values the layer may not support (128-bit integers): every step may report an error, but a value that does come
+/// back must be the one that went in - "reported as an error, never silently altered".
+fn check_or_refuse<T: Serialize + DeserializeOwned + Debug + PartialEq>(rep: &Report, ty: &str, v: &T) {
+    rep.add("evaluations", 1);
+    if let Ok(t) = to_term(v) { if let Ok(back) = from_term::<T>(&t) { if &back != v { rep.violation("a value the layer may refuse came back silently altered (term path)", json!({"type": ty, "value": format!("{:?}", v), "back": format!("{:?}", back)})); } } }
+    if let Ok(b) = to_bytes(v) { if let Ok(back) = from_bytes::<T>(&b) { if &back != v { rep.violation("a value the layer may refuse came back silently altered (byte path)", json!({"type": ty, "value": format!("{:?}", v), "back": format!("{:?}", back)})); } } }
+}
+
+/// The same value as control and payload of a distribution-header frame (what a connection that negotiated headers
+/// puts on the wire), read back through the atom-cache aware decoder.
+fn check_dist_header<T: Serialize + DeserializeOwned + Debug + Same>(rep: &Report, ty: &str, v: &T) {
+    rep.add("evaluations", 1);
+    let Ok(t) = to_term(v) else { return };
+    let ctl = erltf::OwnedTerm::Tuple(vec![erltf::OwnedTerm::Integer(2), erltf::OwnedTerm::atom(""), t.clone()]);
+    let framed = erltf::encode_with_dist_header_multi(&[&ctl, &t]);
+    let Ok(bytes) = framed else { return }; // too many atoms for one header: a refusal, judged elsewhere
+    let mut cache = erltf::AtomCache::new();
+    match erltf::decode_with_atom_cache(&bytes, &mut cache) {
+        Ok((c, Some(p))) => {
+            let ok_p = from_term::<T>(&p).map(|b| b.same(v)).unwrap_or(false);
+            let ok_c = matches!(&c, erltf::OwnedTerm::Tuple(e) if e.len() == 3 && from_term::<T>(&e[2]).map(|b| b.same(v)).unwrap_or(false));
+            if !ok_p || !ok_c { rep.violation("value does not survive a distribution-header frame", json!({"type": ty, "value": format!("{:?}", v).chars().take(120).collect::<String>(), "payload_ok": ok_p, "control_ok": ok_c})); }
+        }
+        other => rep.violation("distribution-header frame of a serialised value cannot be read back", json!({"type": ty, "value": format!("{:?}", v).chars().take(120).collect::<String>(), "result": format!("{:?}", other.map(|_| ()).map_err(|e| e.to_string()))})),
+    }
+}
 
 fn check<T: Serialize + DeserializeOwned + Debug + Same>(rep: &Report, ty: &str, v: &T) {
     rep.add("evaluations", 1);
@@ -311,6 +346,19 @@ fn main() {
     check(&rep, "Vec<String> of empties", &vec![String::new(), String::new(), String::new()]);
     check(&rep, "Vec<()>", &vec![(), (), ()]);
     check(&rep, "Vec<Option<i8>> of None", &vec![None::<i8>, None, None]);
+    // 128-bit integers: supported or refused, never altered
+    for v in [0i128, 1, -1, i64::MAX as i128, i64::MAX as i128 + 1, u64::MAX as i128, u64::MAX as i128 + 1, i64::MIN as i128, i64::MIN as i128 - 1, i128::MAX, i128::MIN, 1i128 << 100, -(1i128 << 100)] {
+        check_or_refuse(&rep, "i128", &v); check_or_refuse(&rep, "Vec<i128>", &vec![v, 0]); check_or_refuse(&rep, "Option<i128>", &Some(v));
+    }
+    for v in [0u128, 1, i64::MAX as u128, i64::MAX as u128 + 1, u64::MAX as u128, u64::MAX as u128 + 1, u128::MAX, 1u128 << 100] { check_or_refuse(&rep, "u128", &v); check_or_refuse(&rep, "(u128,bool)", &(v, true)); }
+    // names of more bytes than characters, plain and under a distribution header
+    let gs = vec![Größe::Klein, Größe::Lang(-5), Größe::Tup(7, "ß".into())];
+    for g in &gs { check(&rep, "enum with non-ASCII variant names", g); check_dist_header(&rep, "enum with non-ASCII variant names", g); }
+    let st = Straße { s: "weg".into(), e: 1 << 40, smile: gs.clone() };
+    check(&rep, "struct with non-ASCII field names", &st); check_dist_header(&rep, "struct with non-ASCII field names", &st);
+    check_dist_header(&rep, "Vec<Word> all", &all_words()); check_dist_header(&rep, "Words", &words_struct());
+    check_dist_header(&rep, "Item (ElixirStruct)", &Item { count: i64::MIN, label: "é".into(), maybe: Some(1), list: vec![1] });
+    check_dist_header(&rep, "Event (keyword fields)", &Event { r#type: "t".into(), r#ref: 2, r#fn: None, plain: true });
     check(&rep, "Holder{items: None}", &Holder { items: None, names: Some(vec!["".into()]), map: None });
     check(&rep, "Shape::Rec{h: Some(0)}", &Shape::Rec { w: 0, h: Some(0) });
     for sh in [Shape::Unit, Shape::Other, Shape::New(-1), Shape::Tup(0, "".into()), Shape::Rec { w: 0, h: None }, Shape::Rec { w: u64::MAX, h: Some(i8::MIN) }] {
